@@ -146,7 +146,7 @@ static void run_c15_mempool(void)
 SIM_WORKLOAD("C15", "mempool", run_c15_mempool, 10)
 
 /* ================================================================ (b) ULTs with arbitrary stacks */
-#define MAXS 8
+#define MAXS 12
 typedef struct su {
     int id, kind, pool, creator, freer; /* kind: 0 default, 1 attr stack size, 2 user stack */
     size_t size;
@@ -163,6 +163,7 @@ static struct {
     int guard; /* stack guard pages in use: leave the lowest pages alone */
     volatile int ext_done[2];
     int next;
+    long ext_frees_of_user_stack_ults;
 } Q;
 
 static void touch_down(su *u, volatile char *sp, int depth)
@@ -193,6 +194,18 @@ static void stack_fn(void *arg)
                   (void *)(top - sz), (void *)top, (void *)u->ustack, (void *)(u->ustack + u->size));
     u->lo = top - sz;
     u->hi = top;
+    if (u->kind != 2)
+        SIM_CHECK(sim_ledger_contains(u->lo, u->hi), "stack:not-in-one-allocation", "ULT %d: stack [%p,%p) does not lie inside one block the runtime allocated", u->id, (void *)u->lo,
+                  (void *)u->hi);
+    /* no live work unit's descriptor (the handle is its address) lies inside this stack */
+    for (int i = 0; i < Q.n; i++) {
+        su *o = &Q.U[i];
+        if (o == u || !o->created || o->freed)
+            continue;
+        char *d = (char *)o->th;
+        SIM_CHECK(!(d >= u->lo && d < u->hi), "stack:overlaps-descriptor", "stack [%p,%p) of ULT %d contains the descriptor %p of live ULT %d", (void *)u->lo, (void *)u->hi, u->id,
+                  (void *)d, o->id);
+    }
     /* no live ULT shares this stack */
     for (int i = 0; i < Q.n; i++) {
         su *o = &Q.U[i];
@@ -248,9 +261,9 @@ static void free_su(su *u)
 {
     while (!u->created)
         sim_yield();
+    u->freed = 1; /* the descriptor may be reused from now on */
     ABT_OK(ABT_thread_free(&u->th));
     SIM_CHECK(u->done, "once:not-exactly-once", "ULT %d freed before it ran", u->id);
-    u->freed = 1;
     sim_progress();
 }
 
@@ -274,50 +287,66 @@ static void run_c15_stacks(void)
     wl_rt_start(rt, 0);
     const char *g = getenv("ABT_STACK_OVERFLOW_CHECK");
     Q.guard = g && !strncmp(g, "mprotect", 8);
-    Q.n = plan_range(1, sim_limit("units", 6));
-    Q.next = (int)plan_n(3);
     static char ubuf[MAXS][300000];
-    sim_note("C15 stacks units=%d ext=%d guard=%d: ", Q.n, Q.next, Q.guard);
-    for (int i = 0; i < Q.n; i++) {
-        su *u = &Q.U[i];
-        u->id = i;
-        u->kind = (int)plan_n(3);
-        u->pool = (int)plan_n((uint32_t)rt->npools);
-        u->creator = (int)plan_n((uint32_t)Q.next + 1);
-        u->freer = (int)plan_n((uint32_t)Q.next + 1);
-        /* log-uniform sizes, most of them not multiples of 64 */
-        int sh = plan_range(14, sim_tier() ? 24 : 21);
-        u->size = ((size_t)1 << sh) + (size_t)plan_n(1u << (sh - 1));
-        if (u->kind == 1)
-            u->size = (u->size & ~(size_t)7) + (size_t)plan_n(8) * (plan_bool() ? 8 : 1);
-        if (u->kind == 2) {
-            if (u->size > 290000)
-                u->size = 16384 + (u->size % 270000);
-            u->size &= ~(size_t)7;
-            u->ustack = ubuf[i] + 8 * plan_n(8);
+    /* several rounds in one runtime, so that blocks travel through the local and global memory
+     * pools; per run one kind of stack / one freeing actor may be favoured (swarm) */
+    int rounds = plan_range(1, 4);
+    int fav_kind = (int)plan_n(4) - 1, fav_freer = (int)plan_n(4) - 1;
+    int next = (int)plan_n(3);
+    for (int round = 0; round < rounds; round++) {
+        memset(Q.U, 0, sizeof Q.U);
+        Q.ext_done[0] = Q.ext_done[1] = 0;
+        Q.n = plan_range(1, round ? sim_limit("units_later", MAXS) : sim_limit("units", 6));
+        Q.next = next;
+        sim_note("C15 stacks round %d units=%d ext=%d guard=%d: ", round, Q.n, Q.next, Q.guard);
+        for (int i = 0; i < Q.n; i++) {
+            su *u = &Q.U[i];
+            u->id = i;
+            u->kind = (int)plan_n(3);
+            if (fav_kind >= 0 && plan_n(3))
+                u->kind = fav_kind;
+            u->pool = (int)plan_n((uint32_t)rt->npools);
+            u->creator = (int)plan_n((uint32_t)Q.next + 1);
+            u->freer = (int)plan_n((uint32_t)Q.next + 1);
+            if (fav_freer >= 0 && fav_freer <= Q.next && plan_n(3))
+                u->freer = fav_freer;
+            /* log-uniform sizes, most of them not multiples of 64 */
+            int sh = plan_range(14, sim_tier() ? 24 : 21);
+            u->size = ((size_t)1 << sh) + (size_t)plan_n(1u << (sh - 1));
+            if (u->kind == 1)
+                u->size = (u->size & ~(size_t)7) + (size_t)plan_n(8) * (plan_bool() ? 8 : 1);
+            if (u->kind == 2) {
+                if (u->size > 290000)
+                    u->size = 16384 + (u->size % 270000);
+                u->size &= ~(size_t)7;
+                u->ustack = ubuf[i] + 8 * plan_n(8);
+                if (u->freer > 0)
+                    Q.ext_frees_of_user_stack_ults++;
+            }
+            u->depth = (int)plan_n(10);
+            sim_note("u%d:k%d/%zu/c%d/f%d ", i, u->kind, u->kind ? u->size : 0, u->creator, u->freer);
         }
-        u->depth = (int)plan_n(10);
-        sim_note("u%d:k%d/%zu/c%d/f%d ", i, u->kind, u->kind ? u->size : 0, u->creator, u->freer);
-    }
-    int tid[2];
-    for (int k = 0; k < Q.next; k++)
-        tid[k] = sim_thread_create(ext_worker, (void *)(long)(k + 1));
-    for (int i = 0; i < Q.n; i++)
-        if (Q.U[i].creator == 0)
-            create_su(&Q.U[i]);
-    for (int i = 0; i < Q.n; i++)
-        if (Q.U[i].freer == 0) {
-            while (!Q.U[i].created)
+        int tid[2];
+        for (int k = 0; k < Q.next; k++)
+            tid[k] = sim_thread_create(ext_worker, (void *)(long)(k + 1));
+        for (int i = 0; i < Q.n; i++)
+            if (Q.U[i].creator == 0)
+                create_su(&Q.U[i]);
+        for (int i = 0; i < Q.n; i++)
+            if (Q.U[i].freer == 0) {
+                while (!Q.U[i].created)
+                    ABT_OK(ABT_thread_yield());
+                free_su(&Q.U[i]);
+            }
+        for (int k = 0; k < Q.next; k++) {
+            while (!Q.ext_done[k])
                 ABT_OK(ABT_thread_yield());
-            free_su(&Q.U[i]);
+            sim_thread_join(tid[k]);
         }
-    for (int k = 0; k < Q.next; k++) {
-        while (!Q.ext_done[k])
-            ABT_OK(ABT_thread_yield());
-        sim_thread_join(tid[k]);
+        for (int i = 0; i < Q.n; i++)
+            SIM_CHECK(Q.U[i].freed && Q.U[i].done, "once:not-exactly-once", "ULT %d: done=%d freed=%d", i, Q.U[i].done, Q.U[i].freed);
     }
-    for (int i = 0; i < Q.n; i++)
-        SIM_CHECK(Q.U[i].freed && Q.U[i].done, "once:not-exactly-once", "ULT %d: done=%d freed=%d", i, Q.U[i].done, Q.U[i].freed);
+    sim_count("c15.ext_frees_of_user_stack_ults", (uint64_t)Q.ext_frees_of_user_stack_ults);
     wl_rt_stop(rt);
 }
 SIM_WORKLOAD("C15", "stacks", run_c15_stacks, 10)
